@@ -139,7 +139,11 @@ void bn_set_bit(bn_t a, uint_t bit, int value) {
 
 	RLC_RIP(bit, d, bit);
 
-	bn_grow(a, d);
+	bn_grow(a, d + 1);
+	if (a->alloc < d + 1) {
+		/* Not enough precision, already reported by bn_grow(). */
+		return;
+	}
 
 	if (value == 1) {
 		a->dp[d] |= ((dig_t)1 << bit);
@@ -198,6 +202,10 @@ void bn_rand(bn_t a, int sign, size_t bits) {
 	digits += (bits > 0 ? 1 : 0);
 
 	bn_grow(a, digits);
+	if (a->alloc < digits) {
+		/* Not enough precision, already reported by bn_grow(). */
+		return;
+	}
 
 	rand_bytes((uint8_t *)a->dp, digits * sizeof(dig_t));
 
@@ -433,6 +441,10 @@ void bn_read_bin(bn_t a, const uint8_t *bin, size_t len) {
 	int digs = (len % d == 0 ? len / d : len / d + 1);
 
 	bn_grow(a, digs);
+	if (a->alloc < digs) {
+		/* Not enough precision, already reported by bn_grow(). */
+		return;
+	}
 	bn_zero(a);
 	a->used = digs;
 
